@@ -373,6 +373,7 @@ def _main(prop, args, seed, t0):
             "known_findings_reproduced": sorted({f["key"] for f in known_fail}),
             "distribution": ctx.counts,
             "tables": {k: v.get("digest") if isinstance(v, dict) else v for k, v in ctx.tables.items()},
+            "tables_read_from": {k: v["read_from"] for k, v in ctx.tables.items() if isinstance(v, dict) and "read_from" in v},
             "notes": ctx.notes,
             "exhaustive": bool(getattr(ctx, "exhaustive", False)),
         },
